@@ -485,6 +485,11 @@ func (r *Resolver) resolve(ctx context.Context, rs *resolveState) (*dns.Msg, err
 	}
 
 	if !minimized && len(resp.Answer) > 0 {
+		// Keep what answers the question, drop what merely rode along.
+		resp.Answer = answerChain(rs.req.Question[0], rs.servers.Zone, resp.Answer)
+	}
+
+	if !minimized && len(resp.Answer) > 0 {
 		// this is like auth server external cname error but this can be recover.
 		if len(resp.Answer) > 0 && (resp.Rcode == dns.RcodeServerFailure || resp.Rcode == dns.RcodeNameError) {
 			resp.Rcode = dns.RcodeSuccess
